@@ -3,8 +3,11 @@ package sim
 import (
 	"bytes"
 	"fmt"
+	"sort"
 
 	"github.com/dappledger/AnnChain/gemmill/consensus/pbft"
+	crypto "github.com/dappledger/AnnChain/gemmill/go-crypto"
+	wire "github.com/dappledger/AnnChain/gemmill/go-wire"
 	"github.com/dappledger/AnnChain/gemmill/types"
 )
 
@@ -253,6 +256,29 @@ func (a *Adversary) AttackLockAmnesia(crash bool) bool {
 		a.publishProposal(p, h, 0, px, -1, types.BlockID{})
 	}
 	a.track()
+	// in half of the runs a message every honest node rejects reaches them first (a round-0 proposal
+	// signed by a Byzantine validator that is not the proposer, or with a damaged signature if it is),
+	// so that their WALs hold a rejected peer message ahead of everything that makes them lock
+	rejectedFirst := false
+	if len(a.Byz) > 0 && a.Rng.Intn(2) == 0 {
+		z := a.Byz[a.Rng.Intn(len(a.Byz))]
+		if _, junk := a.MakeBlock(ref, z, []types.Tx{types.Tx(fmt.Sprintf("amn-junk-%d", h))}); junk != nil {
+			pj := n.SignProposal(z, h, 0, junk.Header(), -1, types.BlockID{})
+			if sig, ok := pj.Signature.(crypto.SignatureEd25519); ok && z == p {
+				sig[7] ^= 0x10
+				pj.Signature = sig
+			}
+			n.Publish(z, true, &pbft.ProposalMessage{Proposal: pj})
+			for _, i := range hon {
+				n.DeliverMatching(i, func(e *Env) bool {
+					m, ok := e.Msg.(*pbft.ProposalMessage)
+					return ok && m.Proposal == pj
+				})
+			}
+			a.RejectedFirst++
+			rejectedFirst = true
+		}
+	}
 	// round 0: proposal, parts and prevotes reach every honest node
 	for pass := 0; pass < 3; pass++ {
 		for _, i := range hon {
@@ -326,15 +352,34 @@ func (a *Adversary) AttackLockAmnesia(crash bool) bool {
 	// move the others to round 1 (optionally through a crash); in the late variant they crash
 	// only after they have signed something in round 1, so that the signer refuses to sign
 	// the locking precommit again while the WAL is replayed
-	late := crash && a.Rng.Intn(2) == 0
+	late := crash && a.Rng.Intn(2) == 0 && !rejectedFirst
 	for _, B := range others {
-		if crash && !late && a.Rng.Float64() < 0.6 {
+		// (with a rejected message at the head of their WALs every locked node restarts early, and the
+		// Byzantine validators second what they prevote afterwards)
+		if crash && !late && (rejectedFirst || a.Rng.Float64() < 0.6) {
 			n.Crash(B)
 			a.Crashes++
 			if err := n.Restart(B); err != nil {
 				panic(fmt.Sprintf("restart failed: %v", err))
 			}
 			n.DrainInternal(B)
+			// the precommits the partition let through before the crash reach the restarted node
+			// again (its peers send whatever it lacks): a node that replayed its WAL completely
+			// drops them as duplicates, one that lost part of the height moves on to round 1 as
+			// before the crash - the adversary keeps the round-0 proposal and prevotes away from it
+			var again []int
+			for id, d := range n.Deliv[B] {
+				if d && n.Pool[id].H == h && n.Pool[id].R == 0 && n.Pool[id].Kind == "precommit" {
+					again = append(again, id)
+				}
+			}
+			sort.Ints(again)
+			for _, id := range again {
+				if n.Nodes[B].Up {
+					n.Deliver(B, id)
+					n.DrainInternal(B)
+				}
+			}
 		}
 		n.FireStep(B, pbft.RoundStepPrecommitWait)
 	}
@@ -379,6 +424,9 @@ func (a *Adversary) AttackLockAmnesia(crash bool) bool {
 			n.DrainInternal(B)
 		}
 		a.LateCrashes++
+	}
+	// after any crash (early or late) of the locked nodes, in half of the early runs and all late ones:
+	if late || (crash && (rejectedFirst || a.Rng.Intn(2) == 0)) {
 		// the partition stays: nothing from the committer A, and no round-0 precommit for X that
 		// an honest validator has not seen yet, reaches the others; the Byzantine validators
 		// second whatever other block an honest validator prevotes at this height (prevote
@@ -910,4 +958,163 @@ func (a *Adversary) AttackEquivocalCommit() bool {
 	})
 	a.track()
 	return n.Nodes[H1].Store.Height() >= h
+}
+
+// AttackBadBlockAfterValid: a malformed block offered after the honest validators validated a
+// well-formed relative of it earlier in the same height. With two Byzantine validators among
+// seven equal ones: the first Byzantine proposer of the height offers a well-formed block A; the
+// adversary lets every honest validator receive, validate and prevote it, but lets nobody see a
+// polka, so the round ends with nil precommits; rounds with honest proposers in between end the
+// same way (their proposals reach nobody else); when the next Byzantine validator is proposer it
+// offers B = mut(copy of A) — e.g. A's header, byte for byte, over another body — backed by
+// Byzantine prevotes and precommits. Whatever a node remembered from validating A must not make
+// it accept B. Returns whether B was offered, its height and id (the hash equals A's when mut
+// leaves the header alone).
+func (a *Adversary) AttackBadBlockAfterValid(mut func(b *types.Block, ref *Node) bool) (staged bool, height int64, id types.BlockID) {
+	n := a.N
+	if len(a.Byz) < 2 {
+		return false, 0, id
+	}
+	h, ref, ok := a.syncNewHeight(8000)
+	if !ok {
+		return false, 0, id
+	}
+	hon := a.Honest()
+	for _, i := range hon {
+		n.FireStep(i, pbft.RoundStepNewHeight)
+	}
+	power := func(vs *types.ValidatorSet, i int) int64 {
+		if k := n.ValIndex(vs, i); k >= 0 {
+			return vs.Validators[k].VotingPower
+		}
+		return 0
+	}
+	inRound := func(r int64) bool {
+		for _, i := range hon {
+			rs := n.Nodes[i].CS.VerifRoundState()
+			if rs.Height != h || rs.Round != r {
+				return false
+			}
+		}
+		return true
+	}
+	// every precommit of the round (all nil) reaches every honest validator: next round
+	endRound := func(vs *types.ValidatorSet, r int64) {
+		a.byzVotes(vs, h, r, types.VoteTypePrecommit, types.BlockID{})
+		for pass := 0; pass < 2; pass++ {
+			for _, i := range hon {
+				n.DeliverMatching(i, func(e *Env) bool { return e.H == h && e.R == r && e.Kind == "precommit" && e.Block == "" })
+			}
+		}
+	}
+	var A *types.Block
+	var validatedA map[int]bool
+	for r := int64(0); r < 16; r++ {
+		if !inRound(r) {
+			break
+		}
+		rs := ref.CS.VerifRoundState()
+		vs := rs.Validators.Copy()
+		total := vs.TotalVotingPower()
+		p := a.nodeByAddr(vs.Proposer().Address)
+		if p < 0 {
+			break
+		}
+		// B can only be committed by the Byzantine validators together with honest ones that still
+		// remember A; when too many honest proposers came in between, start over with a fresh A
+		// (the other Byzantine validator follows this one after the shorter gap)
+		var support int64
+		for _, b := range a.Byz {
+			support += power(vs, b)
+		}
+		for i := range validatedA {
+			support += power(vs, i)
+		}
+		switch {
+		case a.isByz(p) && (A == nil || support*3 <= total*2):
+			// a well-formed block; everybody validates and prevotes it, nobody sees a polka
+			blk, parts := a.MakeBlock(ref, p, []types.Tx{types.Tx(fmt.Sprintf("valid-first-%d-%d", h, r))})
+			if blk == nil {
+				return false, 0, id
+			}
+			a.publishProposal(p, h, r, parts, -1, types.BlockID{})
+			for _, i := range hon {
+				n.DeliverMatching(i, func(e *Env) bool { return e.H == h && e.R == r && e.Byz && (e.Kind == "proposal" || e.Kind == "part") })
+			}
+			a.byzVotes(vs, h, r, types.VoteTypePrevote, types.BlockID{})
+			validatedA = map[int]bool{}
+			for _, i := range hon {
+				anyP, forA := power(vs, i), power(vs, i)
+				n.DeliverMatching(i, func(e *Env) bool {
+					if e.H != h || e.R != r || e.Kind != "prevote" {
+						return false
+					}
+					if e.Byz {
+						if e.Block != "" {
+							return false
+						}
+						anyP += power(vs, e.From)
+						return true
+					}
+					if anyP*3 > total*2 || (forA+power(vs, e.From))*3 > total*2 {
+						return false
+					}
+					forA += power(vs, e.From)
+					anyP += power(vs, e.From)
+					return true
+				})
+				validatedA[i] = true
+				n.FireStep(i, pbft.RoundStepPrevoteWait)
+			}
+			endRound(vs, r)
+			A = blk
+		case !a.isByz(p):
+			// an honest proposer whose proposal reaches nobody else: nil polka, nil precommits
+			for _, i := range hon {
+				if i != p {
+					n.FireStep(i, pbft.RoundStepPropose)
+				}
+			}
+			a.byzVotes(vs, h, r, types.VoteTypePrevote, types.BlockID{})
+			for pass := 0; pass < 2; pass++ {
+				for _, i := range hon {
+					n.DeliverMatching(i, func(e *Env) bool { return e.H == h && e.R == r && e.Kind == "prevote" })
+				}
+			}
+			for _, i := range hon {
+				n.FireStep(i, pbft.RoundStepPrevoteWait)
+			}
+			endRound(vs, r)
+			if validatedA != nil {
+				delete(validatedA, p) // it has validated a block of its own since
+			}
+		default:
+			// the next Byzantine proposer: a mutated copy of A
+			var nn int
+			var err error
+			B := wire.ReadBinary(&types.Block{}, bytes.NewReader(wire.BinaryBytes(A)), 0, &nn, &err).(*types.Block)
+			if err != nil || !mut(B, ref) {
+				a.FairSuffix(h, 8000)
+				return false, h, id
+			}
+			var parts *types.PartSet
+			func() {
+				defer func() { recover() }()
+				parts = B.MakePartSet(n.Cfg.PartSize)
+			}()
+			if parts == nil || B.Hash() == nil {
+				a.FairSuffix(h, 8000)
+				return false, h, id
+			}
+			id = types.BlockID{Hash: B.Hash(), PartsHeader: parts.Header()}
+			a.publishProposal(p, h, r, parts, -1, types.BlockID{})
+			a.byzVotes(vs, h, r, types.VoteTypePrevote, id)
+			a.byzVotes(vs, h, r, types.VoteTypePrecommit, id)
+			a.AfterValidHolders = len(validatedA)
+			a.FairSuffix(h, 8000)
+			return true, h, id
+		}
+	}
+	a.FairSuffix(h, 8000)
+	return false, h, id
 }
